@@ -18,6 +18,12 @@ check("C02",
       "of all buckets is validated by TLC against the specification's step relation (trace validation, canary traces must be rejected).",
       "Trusted: TLC, the JSON projection of the harness (ticks/data names), small-scope hypothesis for the bounded model; histories are sampled, not exhaustive.",
       "TLA+ spec + TLC model checking + TLC trace validation of replayed spec behaviours", "DESIGN.md §6 C02")
+check("C03",
+      "TLC checks that the design layer (window rounding of Datastore.get + backend selection, order, limit, clipping, count) satisfies the declarative "
+      "read predicates of spec/AwReads.tla for every content x window x limit on a half-millisecond grid; the same predicates then judge every recorded "
+      "get/get_eventcount of the real backends (systematic grid + random contents/windows with sub-ms jitter and UTC offsets).",
+      "Trusted: TLC, projection to ms ticks. Tolerance Tol = 2 ms is part of the property; date/offset space is sampled.",
+      "TLA+ relational spec + TLC model checking of the design layer + TLC trace validation of recorded reads", "DESIGN.md §6 C03")
 check("C04",
       "Same specification and judge as C02 with the frame clause (all other buckets read back identical, events and metadata) evaluated on every recorded call, "
       "including calls with ids that are live in another bucket or dead and events whose instants coincide across buckets.",
